@@ -2,7 +2,7 @@ INIT RInit
 NEXT RNext
 CONSTANTS
   Ecus = {"A"}
-  MaxMsgs = 5
+  MaxMsgs = 4
   RxDeltas = {0, 1, 11, 61}
   TsVals = {0, 70}
   Kinds = {"norm"}
@@ -11,7 +11,7 @@ CONSTANTS
   Scheds = {0}
   FreePolls = TRUE
   PartialRecv = TRUE
-  EacTimer = FALSE
+  EacTimer = TRUE
   FixWithdraw = FALSE
 VIEW RView
 INVARIANTS NoMissingNoStale ExtraOnlyRemoved FileInfoOk EacOk CountsOk TableMirror
